@@ -156,6 +156,26 @@ FILES = {
 }
 
 
+def _load_plugins():
+    """anchor plug-ins: every harness/anchors_*.py may define ANCHORS (same triples) and FILES (extra sources)"""
+    import glob, importlib
+    for f in sorted(glob.glob(os.path.join(HERE, 'anchors_*.py'))):
+        m = importlib.import_module(os.path.basename(f)[:-3])
+        FILES.update(getattr(m, 'FILES', {}))
+        have = {n for n, _, _ in ANCHORS}
+        for a in m.ANCHORS:
+            if a[0] not in have:
+                ANCHORS.append(a)
+
+
+_load_plugins()
+
+
+def default_imports():
+    d = os.path.join(VERIF, 'lean', 'XyzModel', 'Gen')
+    return sorted('XyzModel.Gen.' + f[:-5] for f in os.listdir(d) if f.startswith('Default') and f.endswith('.lean'))
+
+
 def generate(repo=None, force_fallback=()):
     repo = repo or REPO
     T, status = {}, {}
@@ -164,7 +184,7 @@ def generate(repo=None, force_fallback=()):
             T[k] = ast.parse(open(os.path.join(repo, rel)).read())
         except Exception as e:  # unreadable / syntax error: every anchor of that file falls back
             T[k] = ast.parse('')
-    lines = ['import XyzModel.Gen.Default',
+    lines = ['import ' + m for m in default_imports()] + [
              '/-! GENERATED by harness/extract.py from the repository source — do not edit. -/',
              'namespace Gen', '']
     for name, sig, fn in ANCHORS:
